@@ -245,3 +245,19 @@ class Refill:
             return b
         b[...] = arr
         return b
+
+    def primed(self, arr, slot, call):
+        """Like __call__, but first runs `call(buffer)` on the buffer's PREVIOUS contents (if it has any): the library
+        then sees two consecutive calls on the very same object with different contents, which is what defeats a
+        single-slot memo of "the last request"."""
+        import numpy as np
+        arr = np.asarray(arr)
+        b = self.bufs.get((slot, arr.shape, arr.dtype.str))
+        if b is None:
+            # first use (e.g. the replay of a single case): the "previous contents" are the case's own values, rotated
+            b = self(np.roll(arr, 1, axis=0), slot)
+        try:
+            call(b)
+        except Exception:
+            pass
+        return self(arr, slot)
